@@ -895,16 +895,17 @@ impl Meta {
 
   #[inline]
   fn align_to<T>(&mut self) {
-    let align_offset = align_offset::<T>(self.memory_offset);
+    let align_offset = align_offset::<T>(self.ptr_offset);
     self.ptr_offset = align_offset;
     self.ptr_size = mem::size_of::<T>() as u32;
   }
 
   #[inline]
   fn align_bytes_to<T>(&mut self) {
-    let align_offset = align_offset::<T>(self.memory_offset);
+    let end = self.ptr_offset + self.ptr_size;
+    let align_offset = align_offset::<T>(self.ptr_offset);
     self.ptr_offset = align_offset;
-    self.ptr_size = self.memory_offset + self.memory_size - self.ptr_offset;
+    self.ptr_size = end - self.ptr_offset;
   }
 }
 
